@@ -415,7 +415,8 @@ def rule_inv_panic(ctx):
                     if a.get('k') == 'const' and isinstance(a.get('text'), str):
                         msg = a['text'][:60]
                         break
-                mod_ = (b.root or nid).split('::')[0:2]
+                # keyed by message and top-level module (cache kind): moving the function to a sibling module does not change the key
+                mod_ = (b.root or nid).split('::')[0:1]
                 key = '%s|%s|%s' % (last, msg, '::'.join(x.strip('<') for x in mod_))
             found[key] += 1
             where[key] = (nid, t.get('line'))
